@@ -682,7 +682,9 @@ def get_fully_qualified_name(obj: Union[FunctionType, type]) -> str:
     return name
 
 
-@dataclass(frozen=True)
+# eq=False: equality and hashing are those of KnownValue (the typevars are not
+# compared); a generated __hash__ would disagree with KnownValue.__hash__.
+@dataclass(frozen=True, eq=False)
 class KnownValueWithTypeVars(KnownValue):
     """Subclass of KnownValue that records a TypeVar substitution."""
 
